@@ -136,8 +136,12 @@ def build(targets):
     return {'ok': rc == 0, 'log': log, 'errors': errors, 'wall_s': time.time() - t0, 'targets': list(targets)}
 
 
-def load_theorems():
-    with open(paths.THEOREMS, 'r') as f:
+def load_theorems(prop_id):
+    """lean/theorems/<id>.json : list of {"name": fully qualified theorem name, "kind": full|partial|witness|pin}"""
+    p = os.path.join(paths.LEAN_DIR, 'theorems', prop_id + '.json')
+    if not os.path.exists(p):
+        return []
+    with open(p, 'r') as f:
         return json.load(f)
 
 
